@@ -125,6 +125,20 @@ theorem value_not_transferable (A : Aead) (hA : IdealAead A) (S : Bytes → Prop
 theorem decodeTags_total (tags : Bytes) : decodeTags tags ≠ .panic :=
   Decrypt.Lemmas.decodeTags_total tags
 
+/-- `decode_tags` parses exactly what SQLite's `GROUP_CONCAT(plaintext || ':' || HEX(name) || ':' || HEX(value))` hands it:
+    for EVERY list of stored tag rows — any length including none (NULL / no bytes), any byte strings as names and values
+    including EMPTY names and EMPTY values, both plaintext flags — the result is that list, in order.  (The `name_end == 0`
+    "no colon seen" sentinel is sound because `name_start ≥ 2`: the colon after an empty name sits at index ≥ 2.) -/
+theorem decodeTags_groupConcat (ts : List EncTag) : decodeTags (groupConcat ts) = .ok ts :=
+  Decrypt.Lemmas.decodeTags_groupConcat ts
+
+/-- consequence: the text determines the tag rows (no two tag lists share a `GROUP_CONCAT` text) -/
+theorem groupConcat_injective (ts ts' : List EncTag) (h : groupConcat ts = groupConcat ts') : ts = ts' := by
+  have h1 := decodeTags_groupConcat ts
+  rw [h, decodeTags_groupConcat ts'] at h1
+  injection h1 with h1
+  exact h1.symm
+
 /-! ## logical level -/
 
 /-- Every read through a fresh handle of a store in which ONE ciphertext cell was replaced — an item cell by any admissible
@@ -223,5 +237,11 @@ example : decodeTags (groupConcat []) = .ok [] := by decide
 example : decodeTags [0x30] = .err .Unexpected := by decide
 example : decodeTags [0x30, 0x3A, 0x41] = .err .Unexpected := by decide
 example : decodeTags [0x30, 0x3A, 0x3A, 0x3A] = .err .Unexpected := by decide
+/-- non-vacuity of `decodeTags_groupConcat`: a concrete two-tag list with an empty value (and an empty name), by the theorem
+    and not by evaluation; the text it is about is the expected `0:AB01:,1::7F` -/
+example : decodeTags (groupConcat [⟨[0xAB, 0x01], [], false⟩, ⟨[], [0x7F], true⟩])
+    = .ok [⟨[0xAB, 0x01], [], false⟩, ⟨[], [0x7F], true⟩] := decodeTags_groupConcat _
+example : groupConcat [⟨[0xAB, 0x01], [], false⟩, ⟨[], [0x7F], true⟩]
+    = [0x30, 0x3A, 0x41, 0x42, 0x30, 0x31, 0x3A, 0x2C, 0x31, 0x3A, 0x3A, 0x37, 0x46] := by decide
 
 end Askar.C03
